@@ -2,6 +2,7 @@
 package main
 
 import (
+	"sync/atomic"
 	"bytes"
 	"crypto"
 	"crypto/ecdsa"
@@ -100,6 +101,40 @@ func (d *devKey) signRaw(emsg []byte) []byte {
 	m := h.Mul(h, q)
 	m.Add(m, m2)
 	return m.FillBytes(make([]byte, d.k))
+}
+
+// smallExponentKey makes an RSA key with public exponent 3.
+func smallExponentKey(bits int) *devKey {
+	three, one := big.NewInt(3), big.NewInt(1)
+	prime := func() *big.Int {
+		for {
+			p, err := rand.Prime(rand.Reader, bits/2)
+			if err != nil {
+				panic(err)
+			}
+			if new(big.Int).Mod(p, three).Int64() == 2 {
+				return p
+			}
+		}
+	}
+	for {
+		p, q := prime(), prime()
+		n := new(big.Int).Mul(p, q)
+		if p.Cmp(q) == 0 || n.BitLen() != bits {
+			continue
+		}
+		phi := new(big.Int).Mul(new(big.Int).Sub(p, one), new(big.Int).Sub(q, one))
+		dd := new(big.Int).ModInverse(three, phi)
+		if dd == nil {
+			continue
+		}
+		k := &rsa.PrivateKey{PublicKey: rsa.PublicKey{N: n, E: 3}, D: dd, Primes: []*big.Int{p, q}}
+		d := &devKey{priv: k, k: (n.BitLen() + 7) / 8}
+		d.dP = new(big.Int).Mod(dd, new(big.Int).Sub(p, one))
+		d.dQ = new(big.Int).Mod(dd, new(big.Int).Sub(q, one))
+		d.qInv = new(big.Int).ModInverse(q, p)
+		return d
+	}
 }
 
 type pki struct {
@@ -308,6 +343,10 @@ func main() {
 			}(i, bits)
 		}
 		wg.Wait()
+		// one more device key with another public exponent (e = 3; crypto/rsa only generates 65537): what a signature is
+		// raised to is this key's exponent, whatever other keys are being verified at the same moment
+		keys = append(keys, smallExponentKey(1024))
+		sizes = append(sizes, 1024)
 		now := time.Now()
 		for _, d := range keys {
 			d.f9, d.f9DER = p.issue(&d.priv.PublicKey, p.root, p.rootKey, now.Add(-48*time.Hour), now.Add(4800*time.Hour))
@@ -456,6 +495,12 @@ func main() {
 						}
 						submit(d, d.f9, attCase{What: "separator-early:" + form, Expect: "reject", Alg: int(h.alg), Position: j}, z, nil, tbs)
 					}
+					// the genuine signature with octets in front of it (a longer signature field whose extra leading octets
+					// are not zero): not the signature any more
+					for _, pre := range [][]byte{{0x01}, {0xde, 0xad, 0xbe, 0xef}, {0x7f, 0, 0, 0}, {0xff}} {
+						sg := append(append([]byte{}, pre...), d.signRaw(good)...)
+						submit(d, d.f9, attCase{What: "genuine-signature-with-nonzero-octets-prepended:" + form, Expect: "reject", Alg: int(h.alg), Position: len(pre)}, good, sg, tbs)
+					}
 					// the encoded message WITHOUT its leading 00 (01 FF..FF 00 T filling all k octets), carried by a signature
 					// field that is one octet longer (leading zero): a verifier that sizes EM by the signature length accepts it
 					{
@@ -593,6 +638,50 @@ func main() {
 			time.Sleep(d)
 		}
 		lateLook("after", false, true)
+		// two device keys with different public exponents attested at the same time from many goroutines: every genuine
+		// signature is accepted and every signature made for the other exponent's arithmetic is refused, each time
+		if mc := r.Case("mixed-exponents", 0); mc != nil {
+			type job struct {
+				d    *devKey
+				sig  []byte
+				want bool
+			}
+			tbs := gen.Bytes(mc.Rand, 256)
+			digest := hashes[1].sum(tbs)
+			var jobsM []job
+			for _, d := range []*devKey{keys[0], keys[len(keys)-1]} {
+				good := em(d.k, append(append([]byte{}, hashes[1].prefix(true)...), digest...))
+				jobsM = append(jobsM, job{d, d.signRaw(good), true})
+				// a value that is not a signature at all (the integer square root of the encoded message): refused whichever
+				// exponent it is raised to
+				jobsM = append(jobsM, job{d, new(big.Int).Sqrt(new(big.Int).SetBytes(good)).FillBytes(make([]byte, d.k)), false})
+			}
+			var bad atomic.Int64
+			var firstBad atomic.Value
+			var wgm sync.WaitGroup
+			for w := 0; w < 16; w++ {
+				wgm.Add(1)
+				go func(w int) {
+					defer wgm.Done()
+					for i := 0; i < r.Pick(1500, 20000); i++ {
+						j := jobsM[(w+i)%len(jobsM)]
+						att := &x509.Certificate{SignatureAlgorithm: x509.SignatureAlgorithm(hashes[1].alg), RawTBSCertificate: tbs, Signature: j.sig}
+						if err := p.attestor.Attest(j.d.f9, att); (err == nil) != j.want {
+							bad.Add(1)
+							firstBad.CompareAndSwap(nil, fmt.Sprintf("device key with e=%d, genuine signature=%v: err=%v", j.d.priv.E, j.want, err))
+						}
+					}
+				}(w)
+			}
+			wgm.Wait()
+			r.Eval(16 * r.Pick(1500, 20000))
+			if n := bad.Load(); n > 0 {
+				r.Violation(mc, "result-changes-under-concurrent-evaluation:Attest:mixed-exponents", fmt.Sprintf("%d of %d concurrent attestations came out differently from the same attestation made alone; first: %v", n, 16*r.Pick(1500, 20000), firstBad.Load()), nil)
+			} else {
+				r.Count("concurrent attestations over device keys with exponents 65537 and 3, all as when made alone", 16*r.Pick(1500, 20000))
+				r.Nontrivial("mixed-exponents")
+			}
+		}
 		r.Extra("keys_with_sampled_padding_positions", sampled)
 		r.Sample(map[string]any{"family": "byte-replaced", "note": "EM = 00 01 FF..FF 00 DigestInfo digest with one byte XORed; signature = EM^d mod N; expected: reject"})
 		r.Sample(map[string]any{"family": "correct", "hashes": []string{"SHA1", "SHA256", "SHA384", "SHA512"}, "forms": []string{"with NULL", "without NULL"}, "expected": "accept"})
